@@ -157,13 +157,24 @@ def r2_flatten(ctx):
                     fs = dict((a_, e_) for a_, e_ in lit[0]["fs"])
                     d = strip(fs["data"])
                     s_ = strip(fs["shape"])
+                    from ..hir import resolve as _resolve, let_table as _let_table
+                    _lt = _let_table(arm["body"])
+                    late = True
+                    if s_.get("k") == "local":
+                        # a shape computed into a local counts the elements only if that happens after the fill
+                        order_ = [id(y) for y in walk(arm["body"])]
+                        lets_ = [y for y in walk(arm["body"]) if y.get("k") == "let" and any(h_ == s_["hid"] for (_, h_) in pat_binds(y["pat"]))]
+                        inside = {id(y) for y in walk(o)}
+                        late = len(lets_) == 1 and id(lets_[0]) not in inside and order_.index(id(lets_[0])) > order_.index(id(o))
+                    s_ = strip(_resolve(s_, _lt)) if s_.get("k") == "local" else s_
+                    d = strip(_resolve(d, _lt)) if d.get("k") == "local" else d
                     fname = strip(ext[0]["recv"])["name"]
                     got = pretty(s_)
                     env = arms_env(c, arm["body"], dh)
                     sv = e1.Norm(c, env).norm(s_["args"][0]) if s_.get("k") == "call" and s_["callee"] == "tensor::Shape::Single" else None
                     true_count = Rat.atom("len(D)") * Rat.atom("len(D[0])") * Rat.atom("len(D[0][0])")
                     oks = (d.get("k") == "call" and d["callee"] == "tensor::Data::Single" and e4.local_hid(d["args"][0]) == fh
-                           and sv is not None and (sv == Rat.atom("len(%s)" % fname) or sv == true_count))
+                           and sv is not None and ((sv == Rat.atom("len(%s)" % fname) and late) or sv == true_count))
                 ctx.check("R14.3", "flatten:shape-is-length", oks, "flatten-shape:" + short(got, 60), c.loc(fn, arm["body"]), "shape = Single(len of the flattened vector)",
                           "flatten records the shape `%s`; it must be the number of elements actually stored" % got)
             if not ok:
